@@ -238,11 +238,17 @@ where
                 None => built.pull,
                 Some(p) => {
                     let pacer = SimPull::<(K, V), TaskC, Fz>::new(Script::new(2, p.items.clone(), p.pend.clone(), 0, Some(0), p.wake));
-                    erase(DynShape(built.pull).zip(pacer).map(|(x, _)| x), false, vec![]).pull
+                    erase(DynShape(built.pull, 0).zip(pacer).map(|(x, _)| x), false, vec![]).pull
                 }
             };
+            let mut pulls = 0u64;
             poll_fn(|cx: &mut Context<'_>| {
                 loop {
+                    pulls += 1;
+                    if pulls > DYN_PULL_CAP {
+                        RT.with(|r| r.cap_hit.set(true));
+                        return std::task::Poll::Ready(());
+                    }
                     let s = top.pull_dyn(cx);
                     match s {
                         PullStep::Ready(x, _) => {
@@ -372,6 +378,8 @@ pub fn run(sim: &mut Sim) -> Outcome {
             "c13/lost_wakeup",
             format!("executor quiescent while the join (or its drain) returned Pending with no wake-up registered ({kinds}, {:?})", spec.api),
         ));
+    } else if !discarded && RT.with(|r| r.cap_hit.get()) {
+        violation = Some(Violation::new("c13/livelock", format!("a tick's join neither ended nor pended within {DYN_PULL_CAP} pulls ({kinds}, {:?})", spec.api)));
     } else if !discarded && poison != 0 {
         violation = Some(Violation::new("c13/repull_after_end", format!("an unfused input (under Pull::fuse) was pulled after its end, mask {poison:#x}")));
     } else if !discarded && hist.done {
